@@ -112,23 +112,23 @@ addenda = {
  "C01": " Also at the wallet level: Wallet.CalculateBalance (symbolic minconf/maturity) and Wallet.ListUnspent on a real wallet with nine differently situated credits; universes with two conflicting unconfirmed spenders of one credit (fixed preamble).",
  "C02": " Further universes: a spender with two debits, two conflicting unconfirmed spenders with a third transaction conflicting on another input, descendants through non-credit outputs; PreviousPkScripts compared.",
  "C04": " Also: a taproot address (32-byte address id) and used flags before any import; root key neutered before conversion; after conversion no stored field may open under the master or the private crypto key (ideal AEAD); a private key imported into the reopened watching-only wallet must not reach the database; wallet-level Wallet.InitAccounts(watchOnly) migration; ImportPrivateKey racing Lock.",
- "C05": " Further states: account row reloaded while unlocked, imported watch-only account, imports into a key scope without loaded account, invalidated account cache, secret taproot script (accessor used once before Lock), address object derived by path and kept by the caller, failed Unlock, a 110-byte passphrase with one-byte-off guesses from locked and while unlocked.",
- "C06": " The second send also goes through FundPsbt without inputs (CreateSimpleTx and the serialising txCreator goroutine); an unconfirmed leased coin and a leased coin whose unconfirmed spend was abandoned are among the credits.",
- "C07": " The caller's output slice (spare capacity) must stay untouched; a wallet-level entry feeds NewUnsignedTransaction from the wallet's real makeInputSource / constantInputSource with symbolic coin amounts.",
- "C08": " Also: the same request retried in a committed transaction after one that did not commit; two operations inside ONE committed transaction (every ordered pair); an imported account with an overriding address schema; wallet-level dry-run transaction creation (symbolic amount around the dust boundary of the change).",
+ "C05": " Further states: account row reloaded while unlocked, imported watch-only account, imports into a key scope without loaded account, invalidated account cache, secret taproot script (accessor used once before Lock), address object derived by path and kept by the caller, failed Unlock, a 110-byte passphrase with one-byte-off guesses from locked and while unlocked. Histories on a LOCKED manager (addresses issued, account renamed, looked up or dropped from the cache) followed by Unlock with the current passphrase; Wallet.Unlock through the real walletLocker goroutine, a second request while unlocked or after Wallet.Lock.",
+ "C06": " The second send also goes through FundPsbt without inputs (CreateSimpleTx and the serialising txCreator goroutine); an unconfirmed leased coin and a leased coin whose unconfirmed spend was abandoned are among the credits. A user lock placed on a coin that is temporarily hidden (leased / spent by an unconfirmed transaction), the locked outpoints listed, the temporary state ended: still ineligible.",
+ "C07": " The caller's output slice (spare capacity) must stay untouched; a wallet-level entry feeds NewUnsignedTransaction from the wallet's real makeInputSource / constantInputSource with symbolic coin amounts. The dust clause is judged by the network's rule (btcd mempool threshold), independently of the wallet's txrules helper; the wallet's real change source for every default scope, a custom scope and imported accounts with schema overrides: script handed out == size told to the fee estimate.",
+ "C08": " Also: the same request retried in a committed transaction after one that did not commit; two operations inside ONE committed transaction (every ordered pair); an imported account with an overriding address schema; wallet-level dry-run transaction creation (symbolic amount around the dust boundary of the change). Also: ImportAccountDryRun (succeeding or failing after the account was cached) followed by a committed import reusing the account number; the sync point moved backwards to a recorded block.",
  "C09": " All six newAddrMtx call sites are driven now (also txToOutputs, FundPsbt with supplied inputs, ImportAccountDryRun) plus a spender from the imported-keys account, whose change comes from account 0.",
- "C10": " Address-manager part: 19 operations from two pre-states; after the rolled-back operation the passphrase must still be accepted (while unlocked and from locked) and a never-installed one refused. Store part: also from a state with two unconfirmed spenders of one outpoint.",
- "C11": " Values may be empty or nil; a second top-level bucket is created, looked up, deleted and looked up again inside transactions; a final View succeeds, fails or panics and the database is then closed (Close waits for open transactions in the model, as in bbolt).",
+ "C10": " Address-manager part: 19 operations from two pre-states; after the rolled-back operation the passphrase must still be accepted (while unlocked and from locked) and a never-installed one refused. Store part: also from a state with two unconfirmed spenders of one outpoint. Also SetSyncedTo above the reorg-safe window (stale-hash pruning) and, at the wallet level, DropTransactionHistory with and without kept labels.",
+ "C11": " Values may be empty or nil; a second top-level bucket is created, looked up, deleted and looked up again inside transactions; a final View succeeds, fails or panics and the database is then closed (Close waits for open transactions in the model, as in bbolt). The package-level Batch helper against a model of bbolt's batch coalescing (shared update, failing member taken out, the others run again).",
  "C12": " Also: fixed preambles (output leased first; unconfirmed output), a confirmed spend by a transaction other than the known unconfirmed spender, and a wallet-level entry (Wallet.LeaseOutput/ReleaseOutput, balance, ListUnspent) on the store's real clock with time.Now symbolic.",
- "C13": " PreviousPkScripts asserted; universes with a lower-index change credit and with two conflicting unconfirmed spenders.",
+ "C13": " PreviousPkScripts asserted; universes with a lower-index change credit and with two conflicting unconfirmed spenders. Wallet.GetTransactions over several blocks, forwards and backwards (each summary carries its own hash, bytes and credited output).",
  "C14": " Also Store.UnminedTxs over a real store with dependencies through non-credit outputs, fixed wider graphs on 4-6 transactions, and a reader concurrent with an uncommitted writer.",
- "C15": " Further evolutions: a reorg that starts or happens entirely while a rescan is running, an out-of-order connect (refused, tip unchanged); the wallet knows its birthday block, so PutSyncedTo's predecessor check is active.",
- "C16": " The third piece is built too: the real recovery loop (Wallet.recovery, RecoveryManager incl. Resurrect, real address manager, store and chain.BlockFilterer) on chains of 2-3 chosen blocks (receipts, several wallet outputs per transaction, same-block sweeps, changeless spends, payments at or below the highest index, BIP0084 or BIP0049Plus), with resumption, one injected backend failure with in-process retry, and a 2005-block chain around the 2000-block batch boundary.",
- "C17": " Also a 70-byte passphrase with one-byte-off guesses at chosen positions.",
- "C18": " Also the notification queues inside the btcd and neutrino clients (real handler goroutines): concurrent producer/consumer, a 61-notification burst with more than 32 pending, Stop with a backlog and no reader.",
+ "C15": " Further evolutions: a reorg that starts or happens entirely while a rescan is running, an out-of-order connect (refused, tip unchanged); the wallet knows its birthday block, so PutSyncedTo's predecessor check is active. Start-up in recovery mode; start-up whose first attempt hits a failing database write, followed by a restart or by a retry in the same process; the initial rescan driven through the real rescan goroutines with a reorg right behind RescanFinished; a wallet transaction one block below the tip.",
+ "C16": " The third piece is built too: the real recovery loop (Wallet.recovery, RecoveryManager incl. Resurrect, real address manager, store and chain.BlockFilterer) on chains of 2-3 chosen blocks (receipts, several wallet outputs per transaction, same-block sweeps, changeless spends, payments at or below the highest index, BIP0084 or BIP0049Plus), with resumption, one injected backend failure with in-process retry, and a 2005-block chain around the 2000-block batch boundary. A recovery that is told to stop in the middle of a batch and resumed.",
+ "C17": " Also a 70-byte passphrase with one-byte-off guesses at chosen positions. At the address manager: Manager.Encrypt racing Manager.Lock with every lock release as a scheduling point; at the wallet: Wallet.Unlock through walletLocker.",
+ "C18": " Also the notification queues inside the btcd and neutrino clients (real handler goroutines): concurrent producer/consumer, a 61-notification burst with more than 32 pending, Stop with a backlog and no reader. Bursts of 2100 notifications with a stalled consumer; BitcoindClient.Start failing and called again (one queue worker only).",
  "C19": " Also two upgrades with the same manager and table, the real wtxmgr manager upgraded twice through the same manager value, and wallet.Open (both namespaces in one transaction) with symbolic stored versions of both namespaces and an optional failing write.",
- "C20": " Also: three unconfirmed transactions accepted/rejected independently on rebroadcast (symbolic reject code), a second resynchronisation, incoming transactions without wallet inputs and descendants linked only through non-credit outputs.",
- "C03": " Three concrete seeds now (leading zero byte at m/84'/0' and at m/84'); two accounts with addresses issued while locked.",
+ "C20": " Also: three unconfirmed transactions accepted/rejected independently on rebroadcast (symbolic reject code), a second resynchronisation, incoming transactions without wallet inputs and descendants linked only through non-credit outputs. Resynchronisations driven through the real rescan batch/RPC/progress goroutines, several finishing at the same tip.",
+ "C03": " Three concrete seeds now (leading zero byte at m/84'/0' and at m/84'); two accounts with addresses issued while locked. An imported account whose override is the zero value of the schema type (p2pkh on both branches).",
 }
 notes_override = {
  "C16": "Bounded chain length / window; Time.Sub stubbed by contract; piece 2 uses function stubs and engine re-execution instead of native replay; the full loop runs on a concrete seed with at most 3 non-empty blocks.",
